@@ -7,9 +7,13 @@ MC : spec/Cas.tla checked through spec/MC_C20.tla (MC_C20_*_mc.cfg, no history v
      properties  mismatching verified put refused with the store unchanged, put idempotent,
      pin/unpin keep content, reads read-only, reopen (disk persists, memory does not), index
      stable / no aliasing / conflicting retain refused.
+XP : spec/CasExport.tla (MC_C20x) enumerates (record set, export profile, withheld / corrupted material);
+     harness c20x builds a real filesystem WAL per record set, exports through wsc_self_contained /
+     wsc_cas_addressed / wsc_ref_only_wal_export, tampers, re-imports with validate_wsc_*_wal_export:
+     untampered => same records and material; tampered => typed error, never different content.
 RP : the same spec with a history variable exports EVERY behaviour of N calls (each call with the
-     model's predicted result and the predicted observable state after it) and, with -simulate,
-     random longer behaviours; harness c20 drives the real MemoryTier (+RetainedBlobIndex, 3 byte
+     model's predicted result and the predicted observable state after it) and, in the thorough tier
+     with -simulate, random behaviours of 12 calls; harness c20 drives the real MemoryTier (+RetainedBlobIndex, 3 byte
      tables, 6 coordinate tables) / DiskTier (scratch directory per case) through the same calls,
      compares every result and the full observable state after every call with the prediction and
      decides the property itself on the real results.  Deviations from the model under which the
@@ -28,14 +32,16 @@ SCRATCH = os.path.join(WORK, "agent_c20", "scratch")
 
 QUICK = {
     "mc": ["MC_C20_quick_mc.cfg"],
-    "export": ["MC_C20_quick.cfg", "MC_C20_quick_disk3.cfg"],
-    "sim": 180, "sweeps": 4, "sweep_lens": [[0, 1, 2, 33], [1, 7, 64, 300], [5, 48, 1000], [3, 40, 70000]],
+    "export": ["MC_C20_quick.cfg", "MC_C20_quick_l3.cfg"],
+    "xcfg": "MC_C20x_quick.cfg",
+    "sim": 0, "sweeps": 4, "sweep_lens": [[0, 1, 2, 33], [1, 7, 64, 300], [5, 48, 1000], [3, 40, 70000]],
 }
 THOROUGH = {
     "mc": ["MC_C20_thorough_mc.cfg"],
-    "export": ["MC_C20_quick.cfg", "MC_C20_quick_disk3.cfg", "MC_C20_thorough_mem5.cfg", "MC_C20_thorough_mem3b.cfg",
+    "export": ["MC_C20_thorough_mem4.cfg", "MC_C20_quick_l3.cfg", "MC_C20_thorough_mem5.cfg", "MC_C20_thorough_mem3b.cfg",
                "MC_C20_thorough_disk4.cfg", "MC_C20_thorough_disk3b.cfg"],
-    "sim": 3000, "sweeps": 24, "sweep_lens": None,
+    "xcfg": "MC_C20x_thorough.cfg",
+    "sim": 1500, "sweeps": 24, "sweep_lens": None,
 }
 # simulation: "sim" random traces of SIM_LEN calls in total (TLC's num is per worker); TLC evaluates the export
 # invariant on every successor of the last-but-one state, so each trace yields ~30 behaviours sharing an 11-call prefix
@@ -124,15 +130,25 @@ def run(tier, replay=None):
                 if not legs[c]:
                     raise ToolError(f"{c}: nothing exported")
                 os.remove(res.stdout_path)
-            # ---- random longer behaviours
-            res = tlc("MC_C20", SIM_CFG, workers=WORKERS, timeout=3600, tags=(), simulate=f"num={max(1, cfg['sim'] // WORKERS)}",
-                      depth=SIM_LEN + 2, seed_arg=ck.seed, out_name="MC_C20_sim_" + tier)
+            # ---- random longer behaviours (thorough tier)
+            if cfg["sim"]:
+                res = tlc("MC_C20", SIM_CFG, workers=WORKERS, timeout=3600, tags=(), simulate=f"num={max(1, cfg['sim'] // WORKERS)}",
+                          depth=SIM_LEN + 2, seed_arg=ck.seed, out_name="MC_C20_sim_" + tier)
+                if res.violation:
+                    spec_violation(SIM_CFG, res, " (simulation)")
+                else:
+                    legs[SIM_CFG] = extract(res.stdout_path, fout)
+                    if not legs[SIM_CFG]:
+                        raise ToolError(f"{SIM_CFG}: simulation exported nothing")
+            # ---- export profiles of the WSC snapshot store (spec/CasExport.tla)
+            res = tlc("MC_C20x", cfg["xcfg"], workers=2, timeout=1800, tags=())
+            ck.add_tlc(res)
             if res.violation:
-                spec_violation(SIM_CFG, res, " (simulation)")
+                spec_violation(cfg["xcfg"], res)
             else:
-                legs[SIM_CFG] = extract(res.stdout_path, fout)
-                if not legs[SIM_CFG]:
-                    raise ToolError(f"{SIM_CFG}: simulation exported nothing")
+                legs[cfg["xcfg"]] = extract(res.stdout_path, fout)
+                if not legs[cfg["xcfg"]]:
+                    raise ToolError(f"{cfg['xcfg']}: nothing exported")
             n_cases = sum(legs.values())
             for c in sweep_cases(cfg, ck.seed):
                 fout.write(json.dumps(c, separators=(",", ":")) + "\n")
@@ -173,18 +189,25 @@ def run(tier, replay=None):
         r0 = hits[0]
         c0 = picked[r0["i"]]
         ops = [f"{s['op']}({','.join(x for x in (s['h'], s['b'], s['c']) if x != '-')})->{s['res']}" for s in c0.get("steps", [])]
-        ck.violation(kind, f"{len(hits)} behaviours; first: tier={c0.get('tier', 'disk')} model calls {ops}: {r0.get('detail')}",
+        ck.violation(kind, f"{len(hits)} behaviours; first: tier={c0.get('tier', 'disk')} calls with the MODEL-predicted results {ops}: {r0.get('detail')}",
                      {"cases": [picked[r["i"]] for r in hits[:3]], "results": hits[:3], "count": len(hits)})
     if drift:
         log(f"[c20] DRIFT on {len(drift)} cases (real code deviates from the model, property holds); first: "
             f"{json.dumps(drift[0])[:1500]}")
         ck.notes.append({"drift_cases": len(drift), "first": drift[0], "first_case": picked.get(drift[0]["i"])})
+    if not replay and (summary["seq"] == 0 or summary["export"] == 0 or summary["sweep"] == 0 or summary["nontrivial"] == 0
+                       or summary["sweep_faults"] == 0 or summary["envelope_evals"] == 0):
+        raise ToolError("a leg of the check replayed nothing (vacuous)")
     mid = picked.get(summary["seq"] // 2)
     if mid and "steps" in mid:
         ck.sample({"tier": mid["tier"], "calls": [{k: s[k] for k in ("op", "h", "b", "c", "res")} for s in mid["steps"]],
                    "predicted_state_after_last_call": mid["steps"][-1]["obs"]})
     ck.cov["traces_validated_against_impl"] = summary["seq"]
-    ck.cov["evaluations"] = summary["calls"] + summary["sweep_queries"]
+    ck.cov["evaluations"] = summary["calls"] + summary["sweep_queries"] + summary["export_attempts"] + summary["envelope_evals"]
+    ck.cov["export_cases"] = summary["export"]
+    ck.cov["export_import_attempts"] = summary["export_attempts"]
+    ck.cov["export_envelope_damage_evaluations"] = summary["envelope_evals"]
+    ck.cov["export_typed_errors_seen"] = summary.get("export_errors", {})
     ck.cov["distinct_nontrivial"] = summary["nontrivial"]
     ck.cov["replays"] = summary["replays"]
     ck.cov["ok_reads_hash_checked"] = summary["ok_reads_hash_checked"]
@@ -193,7 +216,7 @@ def run(tier, replay=None):
     ck.cov["sweep_queries"] = summary["sweep_queries"]
     ck.cov["drift_cases"] = len(drift)
     ck.cov["behaviours_per_leg"] = legs
-    ck.cov["rule"] = ("evaluations = calls replayed against the real tiers, each with its result and the full observable state "
+    ck.cov["rule"] = ("evaluations = export/import attempts and envelope damage probes, plus calls replayed against the real tiers, each with its result and the full observable state "
                       "(get/has/pinned for every hash, list/len/byte_count/over_budget, descriptor and load for every coordinate) compared "
                       "with the model, plus get queries of the fault sweep; traces = exported behaviours (exhaustive legs: every behaviour of "
                       "the stated length; simulation leg: random behaviours of 12 calls); non-trivial = behaviour with a mismatching verified "
@@ -205,7 +228,11 @@ def run(tier, replay=None):
         "(BLAKE3 collision-freeness on the byte tables: 1/2/3-byte, 64/128/192-byte, 4096/8192/12288-byte blobs)",
         "file faults are applied between calls (no fault concurrent with a call); disk scratch on the sandbox file system",
         "trusted base: TLC, the harness result encoding (c20.rs), serde_json",
-        "WSC snapshot-store export profiles (crates/warp-core/src/wsc/store.rs) are not covered by this check",
+        "export profiles: sources are sealed single-segment filesystem WALs with 1-3 submission/receipt/correlation triples and 0-2 retained "
+        "readings, no causal anchors; tampering = material withheld from / altered for the exporter (self-contained), CAS blob absent / "
+        "file corrupted / lying port (CAS-addressed), plus bit flips, truncation and deletion of encoded envelopes and FilesystemWscStore files; "
+        "ref-only exports reference no bytes, so nothing can be withheld",
+        "crates/warp-core/src/retention.rs is a crate-private, unused policy enum (nothing to drive); warp-core optic.rs is not exercised",
     ]
     if not replay:
         return ck.finish()
